@@ -287,6 +287,13 @@ impl ShiftTokenLine {
     }
 }
 
+#[cfg(feature = "verif")]
+impl ShiftTokenLine {
+    pub(crate) fn verif_shift_amount(&self) -> isize {
+        self.shift_amount
+    }
+}
+
 impl FlawlessRule for ShiftTokenLine {
     fn flawless_process(&self, block: &mut Block, _context: &Context) {
         if self.shift_amount != 0 {
